@@ -84,8 +84,14 @@ func (mdb *MassDBV1) StopPlot() chan error {
 		return result
 	}
 
+	// Only the caller that moves the plot from running (1) to stopping (2) closes the
+	// channel: several stop requests can arrive for one plot (a stop action and the
+	// keeper's shutdown monitor), and closing the channel twice would panic.
+	closeCh := atomic.CompareAndSwapInt32(&mdb.plotting, 1, 2)
 	go func() {
-		close(mdb.stopPlotCh)
+		if closeCh {
+			close(mdb.stopPlotCh)
+		}
 		mdb.wg.Wait()
 		result <- nil
 	}()
